@@ -128,7 +128,8 @@ def h_quantize_extract(c):
     p_ = c.int('n%d_p' % i, 60, 61)
     v_ = c.int('n%d_v' % i, 1, 127)
     specs.append((s_, e_, p_, v_))
-    nsa.notes.add(start_time=s_, end_time=e_, pitch=p_, velocity=v_)
+    nsa.notes.add(start_time=s_, end_time=e_, pitch=p_, velocity=v_,
+                  is_drum=c.params.get('type') == 'drums')
   for a in range(n):
     for b in range(a + 1, n):
       A, B = specs[a], specs[b]
@@ -145,6 +146,11 @@ def h_quantize_extract(c):
   if which != 'performance':
     nsa.tempos.add(qpm=60)  # steps_per_quarter == steps per second
     nsb.tempos.add(qpm=60)
+  if which == 'drums':
+    # 1/8 bars: two steps per bar at 4 steps per quarter, so that one second
+    # of notes spans two bars (the track start is bar-aligned)
+    nsa.time_signatures.add(numerator=1, denominator=8)
+    nsb.time_signatures.add(numerator=1, denominator=8)
 
   def run(ns):
     if which == 'performance':
@@ -154,6 +160,11 @@ def h_quantize_extract(c):
                          max_shift_steps=c.params.get('ms', 100))
       return [(e.event_type, e.event_value) for e in p]
     q = sl.quantize_note_sequence(ns, sps)
+    if which == 'drums':
+      d = c.mod('drums_lib').DrumTrack()
+      d.from_quantized_sequence(q, 0, 8, False, False)
+      return [(0, sum(1 << (int(x) - 60) for x in e)) for e in d] + [
+          (1, d.start_step), (2, d.end_step)]
     if which == 'melody':
       m = c.mod('melodies_lib').Melody()
       m.from_quantized_sequence(q, 0, 0, 1, True, False, False)
@@ -519,6 +530,7 @@ def jobs(tier):
   add('h_quantize_extract', n=2, swap=0, sps=4, bins=4, budget=900)
   add('h_quantize_extract', n=2, swap=0, sps=4, type='melody', budget=900)
   add('h_quantize_extract', n=2, swap=0, sps=4, type='pianoroll', budget=900)
+  add('h_quantize_extract', n=2, swap=0, sps=4, type='drums', budget=900)
   if deep:
     for sw in (0, 1):
       add('h_quantize_extract', n=3, swap=sw, sps=4, bins=4, budget=3000)
